@@ -77,7 +77,7 @@ type profile struct {
 
 func baseProfile() profile {
 	return profile{faultFree: 0.5, maxClients: 2, pPolling: 0.7, pWT: 0.3, pEIO3: 0.2, pB64: 0.2, pJSONP: 0.1,
-		pUpgrade: 0.5, senders: 2, sendsMax: 8, pBigPayload: 0.08, pBinary: 0.3, pPreEncoded: 0.1, pNoCompress: 0.15, pCB: 0.3,
+		pUpgrade: 0.5, pCandScript: 0.12, pSecondCand: 0.3, senders: 2, sendsMax: 8, pBigPayload: 0.08, pBinary: 0.3, pPreEncoded: 0.1, pNoCompress: 0.15, pCB: 0.3,
 		clientSends: 4, pAppClose: 0.15, pServerClose: 0.05, pClientFault: 0.3, pClientClose: 0.1, pSilence: 0.1, pLatePong: 0.1,
 		pReent: 0, pCompression: 0.5, pPMD: 0.2, pCookie: 0.2, pCors: 0.15, pInitial: 0.15, smallHB: 0.6, pHttpServer: 0.3, fragP: 0.3,
 		horizonLo: 800, horizonHi: 4000}
@@ -379,6 +379,29 @@ func GenSession(prop string, seed uint64, thorough bool) *Scenario {
 			}
 			if c.CandKind != "" {
 				c.Cand = genCandScript(g, ut)
+				// a script that ends up switching (probe ... upgrade with nothing else in between) must get there
+				// before the upgrade timeout closes the candidate under it: its pauses share ut - 150 ms - latency
+				clean, probeSeen, sum := true, false, 0
+				for k, op := range c.Cand {
+					switch op.Op {
+					case "probe":
+						probeSeen = true
+					case "upgrade":
+						if clean && probeSeen {
+							for j := 0; j <= k; j++ {
+								sum += c.Cand[j].WaitMs
+							}
+							if budget := ut - 150 - 10*c.LatencyMs; sum > budget {
+								for j := 0; j <= k; j++ {
+									c.Cand[j].WaitMs = c.Cand[j].WaitMs * budget / (sum + 1)
+								}
+							}
+						}
+					case "wait", "waitpong":
+					default:
+						clean = false
+					}
+				}
 				c.CandAtMs = g.pick(0, 1, 10, 50, 100, 300)
 				if c.Upgrade != "" && g.p(p.pSecondCand) {
 					// two candidates around the same time
